@@ -1608,6 +1608,157 @@ Proof.
     now apply filter_all_true.
 Qed.
 
+(* ---- LAMMPS write_for_run as written (str.replace) against the whole-word substitution *)
+Lemma str_starts_refl k : str_starts k k = true.
+Proof. induction k as [|c k IH]; [reflexivity|]. cbn [str_starts]. now rewrite Z.eqb_refl, IH. Qed.
+
+Lemma str_replace_skip_all k v t : str_replace k v (length t) t = [].
+Proof. induction t as [|c t IH]; [reflexivity|]. cbn [length str_replace]. exact IH. Qed.
+
+Lemma str_replace_self k v : k <> [] -> str_replace k v O k = v.
+Proof.
+  destruct k as [|c k]; [congruence|]. intros _. cbn [str_replace]. rewrite (str_starts_refl (c :: k)).
+  cbn [length]. rewrite Nat.sub_succ, Nat.sub_0_r, str_replace_skip_all. apply app_nil_r.
+Qed.
+
+Lemma str_replace_no_occ k v t : str_occurs k t = false -> str_replace k v O t = t.
+Proof.
+  induction t as [|c t IH]; [reflexivity|]. cbn [str_occurs str_replace]. intros H. apply orb_false_iff in H.
+  destruct H as [H1 H2]. cbn [str_starts] in H1. rewrite H1. f_equal. now apply IH.
+Qed.
+
+Lemma lookup_app_some {V} t (a b : list (str * V)) v : lookup t a = Some v -> lookup t (a ++ b) = Some v.
+Proof.
+  induction a as [|[k' v'] a IH]; [discriminate|]. cbn [lookup app]. destruct (str_eqb t k'); [trivial|exact IH].
+Qed.
+
+Lemma lookup_app_none {V} t (a b : list (str * V)) : lookup t a = None -> lookup t (a ++ b) = lookup t b.
+Proof.
+  induction a as [|[k' v'] a IH]; [reflexivity|]. cbn [lookup app]. destruct (str_eqb t k'); [discriminate|exact IH].
+Qed.
+
+Lemma subst_piece_nil p : subst_piece [] p = p.
+Proof. unfold subst_piece. destruct p as [[|] t]; reflexivity. Qed.
+
+Lemma token_in_line (l : list piece) t : In (true, t) l -> In t (line_tokens l).
+Proof.
+  intros H. unfold line_tokens. apply in_map_iff. exists (true, t). split; [reflexivity|].
+  apply filter_In. now split.
+Qed.
+
+(* one step of the loop on a line that is the whole-word substitution of the variables done
+   so far *)
+Lemma lmp_impl_step_ok l dn kv :
+  (if mem_str (fst kv) (line_tokens l) then
+     negb (is_nil (fst kv))
+     && forallb (fun t => str_eqb t (fst kv) || is_some (lookup t dn) || negb (str_occurs (fst kv) t)) (line_tokens l)
+     && forallb (fun d => negb (mem_str (fst d) (line_tokens l)) || negb (str_occurs (fst kv) (snd d))) dn
+   else true) = true ->
+  lmp_impl_step (line_tokens l) (map (subst_piece dn) l) kv = map (subst_piece (dn ++ [kv])) l.
+Proof.
+  destruct kv as [k v]. cbn [fst snd]. intros H. unfold lmp_impl_step. cbn [fst snd].
+  destruct (mem_str k (line_tokens l)) eqn:Hm.
+  - apply andb_true_iff in H. destruct H as [H Hd]. apply andb_true_iff in H. destruct H as [Hk Ht].
+    assert (Hk' : k <> []) by (destruct k; [discriminate|congruence]).
+    rewrite forallb_forall in Ht, Hd. rewrite map_map. apply map_ext_in. intros [b t] Hp.
+    unfold subst_piece, repl_piece. cbn [fst snd]. destruct b; [|reflexivity].
+    pose proof (token_in_line l t Hp) as HtT.
+    destruct (lookup t dn) as [v1|] eqn:El.
+    + cbn [fst snd]. rewrite (lookup_app_some t dn [(k, v)] v1 El). f_equal. apply str_replace_no_occ.
+      specialize (Hd (t, v1) (lookup_In _ _ _ El)). cbn [fst snd] in Hd.
+      apply (proj2 (mem_str_In t (line_tokens l))) in HtT. rewrite HtT in Hd. cbn in Hd.
+      now apply negb_true_iff in Hd.
+    + cbn [fst snd]. rewrite (lookup_app_none t dn [(k, v)] El). cbn [lookup].
+      specialize (Ht t HtT). rewrite El in Ht. cbn [is_some] in Ht. rewrite orb_false_r in Ht.
+      destruct (str_eqb t k) eqn:Etk.
+      * apply str_eqb_eq in Etk. subst t. now rewrite str_replace_self.
+      * cbn in Ht. apply negb_true_iff in Ht. now rewrite str_replace_no_occ.
+  - apply map_ext_in. intros [b t] Hp. unfold subst_piece. cbn [fst snd]. destruct b; [|reflexivity].
+    pose proof (token_in_line l t Hp) as HtT.
+    destruct (lookup t dn) as [v1|] eqn:El.
+    + now rewrite (lookup_app_some t dn [(k, v)] v1 El).
+    + rewrite (lookup_app_none t dn [(k, v)] El). cbn [lookup].
+      destruct (str_eqb t k) eqn:Etk; [|reflexivity]. apply str_eqb_eq in Etk. subst t.
+      apply (proj2 (mem_str_In k (line_tokens l))) in HtT. congruence.
+Qed.
+
+Lemma lmp_impl_fold_ok l s : forall dn, lmp_clean_from (line_tokens l) dn s = true ->
+  fold_left (lmp_impl_step (line_tokens l)) s (map (subst_piece dn) l) = map (subst_piece (dn ++ s)) l.
+Proof.
+  induction s as [|kv s IH]; intros dn H.
+  - now rewrite app_nil_r.
+  - cbn [lmp_clean_from] in H. apply andb_true_iff in H. destruct H as [H1 H2]. cbn [fold_left].
+    rewrite (lmp_impl_step_ok l dn kv H1), (IH (dn ++ [kv]) H2), <- app_assoc. reflexivity.
+Qed.
+
+(* on a clean line the code is the whole-word substitution *)
+Theorem lmp_impl_whole_word s l : lmp_line_clean s l = true -> lmp_impl_line s l = lmp_subst_line s l.
+Proof.
+  intros H. unfold lmp_impl_line, lmp_subst_line. unfold lmp_line_clean in H.
+  pose proof (lmp_impl_fold_ok l s [] H) as E. cbn [app] in E.
+  rewrite <- E. f_equal. rewrite <- (map_id l) at 1. apply map_ext. intros p. now rewrite subst_piece_nil.
+Qed.
+
+(* a line none of whose words is a requested variable is written back unchanged -- whatever
+   its words, comments or file names contain as substrings *)
+Theorem lmp_impl_no_word_untouched s l :
+  (forall k, In k (map fst s) -> ~ In k (line_tokens l)) -> lmp_impl_line s l = l.
+Proof.
+  unfold lmp_impl_line. generalize (line_tokens l) as T. intros T. revert l.
+  induction s as [|[k v] s IH]; intros l H; [reflexivity|]. cbn [fold_left]. unfold lmp_impl_step at 2. cbn [fst snd].
+  destruct (mem_str k T) eqn:E.
+  - apply mem_str_In in E. exfalso. apply (H k); [now left|exact E].
+  - apply IH. intros k' Hk'. apply H. now right.
+Qed.
+
+Theorem lmp_impl_write_whole_word s ls : forallb (lmp_line_clean s) ls = true ->
+  lmp_impl_write_for_run s ls = lmp_write_for_run s ls.
+Proof.
+  intros H. unfold lmp_impl_write_for_run, lmp_write_for_run. f_equal. apply map_ext_in. intros l Hl.
+  rewrite forallb_forall in H. now apply lmp_impl_whole_word, H.
+Qed.
+
+(* the edit is idempotent: applied to its own output (clean lines) it changes nothing and
+   reports every variable as missing *)
+Theorem lmp_impl_second_application s ls : lmp_settings_ok s -> forallb (lmp_line_clean s) ls = true ->
+  lmp_impl_write_for_run s (fst (lmp_impl_write_for_run s ls)) = (fst (lmp_impl_write_for_run s ls), map fst s).
+Proof.
+  intros Hs Hc. rewrite (lmp_impl_write_whole_word s ls Hc).
+  pose proof (lmp_second_application s ls Hs) as E2.
+  set (ls' := fst (lmp_write_for_run s ls)) in *.
+  change (lmp_impl_write_for_run s ls') with (map (lmp_impl_line s) ls', snd (lmp_write_for_run s ls')).
+  rewrite E2. cbn [snd]. f_equal.
+  unfold ls', lmp_write_for_run. cbn [fst]. rewrite <- (map_id (map (lmp_subst_line s) ls)) at 2.
+  rewrite !map_map. apply map_ext. intros l.
+  apply lmp_impl_no_word_untouched. intros k Hk Hin.
+  pose proof (lmp_output_free s l k Hs Hin) as Hn. apply in_map_iff in Hk. destruct Hk as ([k' v] & <- & Hkv).
+  destruct Hs as (Hnd & _). cbn [fst] in Hn. rewrite (lookup_NoDup k' v s Hnd Hkv) in Hn. discriminate.
+Qed.
+
+(* the guard is needed: a variable that is a word of the line and also part of another word *)
+Theorem lmp_impl_same_line_refuted : exists s l,
+  lmp_settings_ok s /\ lmp_line_clean s l = false /\ lmp_impl_line s l <> lmp_subst_line s l.
+Proof.
+  (* {n: 3, ns: 5} on the line "n ns": the code writes "3 3s" *)
+  exists [([110], [51]); ([110; 115], [53])], [(true, [110]); (false, [32]); (true, [110; 115])].
+  split; [|split; [reflexivity|vm_compute; discriminate]].
+  split.
+  - repeat constructor; cbn; intuition discriminate.
+  - intros k v [H|[H|[]]]; inversion H; subst; reflexivity.
+Qed.
+
+(* testing `var in line` instead of `var in line.split()` is refuted on a clean line *)
+Theorem lmp_substring_match_refuted : exists s l,
+  lmp_settings_ok s /\ lmp_line_clean s l = true /\ lmp_impl_line s l = l /\ lmp_substr_line s l <> lmp_subst_line s l.
+Proof.
+  (* {n: 3} on the line "xn_1 # n_x": no word is n *)
+  exists [([110], [51])], [(true, [120; 110; 95; 49]); (false, [32]); (true, [35]); (false, [32]); (true, [110; 95; 120])].
+  split; [|split; [reflexivity|split; [reflexivity|vm_compute; discriminate]]].
+  split.
+  - repeat constructor; cbn; intuition.
+  - intros k v [H|[]]; inversion H; subst; reflexivity.
+Qed.
+
 (* ================================================================== records and frames *)
 
 Theorem reverse_only_velocities c :
